@@ -291,6 +291,8 @@ type Env struct {
 	NoFaults  bool   // ignore every writer / fs plan
 	NoFaultOp int    // ignore the plan of this op only (-1 = none); ops after it are not executed
 	UpTo      int    // execute ops [0..UpTo] (-1 = all)
+	// RenderHook, if set, is told when a render call starts and ends (C09 probe).
+	RenderHook func(in bool)
 }
 
 func newEnv(sim *fileSim) *Env { return &Env{Sim: sim, NoFaultOp: -1, UpTo: -1} }
@@ -397,7 +399,7 @@ func fsErr(kind, name string) error {
 	return nil
 }
 
-// Exec builds the recipe's objects from scratch and runs its history.
+// Exec builds the recipe's objects from scratch and runs its history under env.Sim.
 func Exec(r *Recipe, env *Env) (hist []Outcome) {
 	simhook.ResetKeys()
 	simhook.ResetRun()
@@ -408,11 +410,23 @@ func Exec(r *Recipe, env *Env) (hist []Outcome) {
 		simhook.Cur = nil
 	}
 	defer func() { simhook.Cur = prev }()
+	return execBody(r, env, nil)
+}
 
+// execBody runs the history without touching the installed simulation (used directly
+// by concurrent tasks). shared, if non-nil, supplies pre-built fragments (Code values
+// shared between Files).
+func execBody(r *Recipe, env *Env, shared []*jen.Statement) (hist []Outcome) {
 	ctx := &bctx{paths: r.Paths}
 	b := &built{ctx: ctx}
 	b.file = newFile(r.File)
+	if shared != nil {
+		b.frags = shared
+	}
 	for _, fr := range r.Frags {
+		if shared != nil {
+			break
+		}
 		code := ctx.build(fr)
 		st, ok := code.(*jen.Statement)
 		if !ok {
@@ -475,6 +489,10 @@ func Exec(r *Recipe, env *Env) (hist []Outcome) {
 				w := &simWriter{}
 				if faults {
 					w.plan = op.W
+				}
+				if env.RenderHook != nil {
+					env.RenderHook(true)
+					defer env.RenderHook(false)
 				}
 				var err error
 				switch op.K {
